@@ -1,7 +1,7 @@
 (* Properties_C04.v — C04: saved files are structurally well-formed (objects
    without segments: proved; objects with segments: modelled and tied by the
    correspondence run, partial). *)
-From ElfioV Require Import Bytes Mem Stream SectionData Strings Elfio Table Loader Layout Writer Ostream_proofs Layout_proofs Writer_proofs Segment_proofs.
+From ElfioV Require Import Bytes Mem Stream SectionData Strings Elfio Table Loader Layout Writer Ostream_proofs Layout_proofs Writer_proofs Segment_proofs Oneseg_proofs Oneseg_writer.
 Local Open Scope N_scope.
 
 (* The layout step of save() for an object without segments (any sections, any
@@ -100,6 +100,58 @@ Proof.
 Qed.
 Print Assumptions C04_segment_of_auto_members.
 
+(* The whole layout step of save() for an object with ONE segment whose members are allocated data
+   sections the writer addresses itself (alignment of the segment at least that of its members, as
+   add_section_index leaves it), plus any sections outside the segment: the program header table follows
+   the ELF header; the segment starts at or after it, at a file offset congruent to its address modulo
+   its alignment; its members follow one another inside [p_offset, p_offset + p_filesz), each aligned, at
+   the same distance from the segment start in the file as in memory (mchain); memory size >= file size;
+   the sections outside the segment keep everything but their offset and lie in a chain behind the
+   segment (chain over free_list); the section header table comes after everything. *)
+Theorem C04_layout_with_one_segment :
+  forall el h0 g bound ms,
+    let idxs := g_sections g in
+    let align := if 0 <? p_align g then p_align g else 1 in
+    let secs := el_secs el in
+    let pos0 := e_ehsize h0 + e_phentsize h0 in
+    el_hdr el = Some h0 -> el_segs el = [g] -> lenN secs < 2 ^ 16 ->
+    lenN idxs < 2 ^ 16 -> idxs <> [] -> g_offset_set g = false -> p_type g <> PT_PHDR -> NoDup idxs ->
+    Forall2 (fun i s => nth_optN secs i = Some s) idxs ms ->
+    Forall auto_member ms -> Forall (fun s => sh_addralign s <= p_align g) ms ->
+    bound <= 2 ^ 64 -> Forall (fun s => bound <= 2 ^ xw (s_cls s)) secs -> bound <= 2 ^ xw (g_cls g) ->
+    p_align g < 2 ^ 63 ->
+    p_vaddr g + pos0 + align + mbudget ms + budget secs + 16 < bound ->
+    exists el' g' secs' seg_start pos1 pos2,
+      layout el = Ok (el', true) /\
+      el_hdr el' = Some (hdr_set (hdr_prep1 h0 (lenN secs)) HShoff (pos2 + (16 - pos2 mod 16))) /\
+      el_segs el' = [g'] /\ el_secs el' = secs' /\
+      el_xlat el' = el_xlat el /\ el_compr el' = el_compr el /\ el_stream el' = el_stream el /\
+      pos0 <= seg_start /\ seg_start < pos0 + align /\ seg_start mod align = p_vaddr g mod align /\
+      p_offset g' = seg_start /\ p_vaddr g' = p_vaddr g /\ p_filesz g' = pos1 - seg_start /\ p_filesz g' <= p_memsz g' /\
+      (g_sections g' = idxs /\ g_offset_set g' = true /\ p_align g' = p_align g /\ p_type g' = p_type g /\ g_cls g' = g_cls g /\
+       g_index g' = g_index g /\ p_flags g' = p_flags g /\ p_paddr g' = p_paddr g) /\
+      mchain g seg_start secs' idxs seg_start pos1 /\
+      Forall2 (fun i s => exists a o, nth_optN secs' i = Some (with_offset (with_addr s a) o)) idxs ms /\
+      (forall j s, ~ In j idxs -> nth_optN secs j = Some s -> exists s', nth_optN secs' j = Some s' /\ keeps s s') /\
+      lenN secs' = lenN secs /\
+      chain (free_list [g'] 0 secs') pos1 pos2 /\
+      pos1 <= seg_start + mbudget ms /\ pos2 <= pos1 + budget secs.
+Proof. exact layout_oneseg. Qed.
+Print Assumptions C04_layout_with_one_segment.
+
+(* ... and in that layout no two sections' file ranges overlap, whichever of them are members *)
+Theorem C04_one_segment_data_disjoint :
+  forall (g g' : segment) secs' ss pos1 pos2,
+    mchain g ss secs' (g_sections g) ss pos1 ->
+    chain (free_list [g'] 0 secs') pos1 pos2 ->
+    g_sections g' = g_sections g -> lenN (g_sections g) < 2 ^ 16 ->
+    (forall i s, In i (g_sections g) -> nth_optN secs' i = Some s -> csize s = sh_size s) ->
+    (forall j s, nth_optN secs' j = Some s -> s_index s = 0 -> csize s = 0) ->
+    forall i j a b, i <> j -> nth_optN secs' i = Some a -> nth_optN secs' j = Some b -> NoDup (g_sections g) ->
+      rng_disjoint (data_range a) (data_range b).
+Proof. exact oneseg_data_disjoint. Qed.
+Print Assumptions C04_one_segment_data_disjoint.
+
 Theorem C04_member_of_chain :
   forall g ss secs' idxs lo hi i, mchain g ss secs' idxs lo hi -> In i idxs ->
     exists s, nth_optN secs' i = Some s /\ lo <= sh_offset s /\ sh_offset s + sh_size s <= hi /\
@@ -132,3 +184,14 @@ Example C04_example :
     option_map e_shoff (el_hdr el') = Some 96 /\
     e_ehsize (new_header C32 LSB) + budget (el_secs ex_el) + 16 < 2 ^ 32.
 Proof. eexists. split; [vm_compute; reflexivity|]. vm_compute. repeat split; reflexivity. Qed.
+
+(* non-vacuity: ELF32, a PT_LOAD segment at 0x8048004 (align 0x1000) holding .text and .data, a free section behind *)
+Example C04_one_segment_example :
+  let fs (i : N) := with_index (with_size (with_addralign (with_type (new_section C32) 1) 1) 7) i in
+  let el := with_segs (with_secs (with_hdr (empty_elfio false) (Some (new_header C32 LSB)))
+                                 [ms 0 0 0; ms 1 16 5; ms 2 4 3; fs 3]) [ex_seg] in
+  exists el', layout el = Ok (el', true) /\
+    map sh_offset (el_secs el') = [0; 4112; 4120; 4123] /\ map p_offset (el_segs el') = [4100] /\
+    map p_filesz (el_segs el') = [23] /\ option_map e_shoff (el_hdr el') = Some 4144 /\ option_map e_phoff (el_hdr el') = Some 52.
+Proof. eexists. split; [vm_compute; reflexivity|]. vm_compute. repeat split; reflexivity. Qed.
+
